@@ -23,6 +23,7 @@ import (
 	"strings"
 	"sync"
 	"sync/atomic"
+	"time"
 	"unicode"
 	"unicode/utf8"
 
@@ -30,6 +31,7 @@ import (
 	"github.com/onflow/cadence/common"
 	cdcjson "github.com/onflow/cadence/encoding/json"
 	"github.com/onflow/cadence/interpreter"
+	cdcruntime "github.com/onflow/cadence/runtime"
 	"github.com/rivo/uniseg"
 	"golang.org/x/text/unicode/norm"
 
@@ -64,7 +66,8 @@ type gRow struct {
 	Lol int        `json:"lol"`
 	Hx  string     `json:"hx"`
 	Dh  []int      `json:"dh"`
-	Rk  int        `json:"rk"`
+	Cm  [][]any    `json:"cm"` // [value, cmp(this value, that value)] for every ranked value
+	cmp map[string]int
 	Rs  []string   `json:"rs"`
 	Nd  []gNeedle  `json:"nd"`
 }
@@ -868,7 +871,7 @@ func runBatch(rows []*gRow, path string, useVM bool) {
 			"    let cutl: [[String]] = " + litNested(in.cutl, lit) + "\n" +
 			"    let cutr: [[String]] = " + litNested(in.cutr, lit) + "\n" + scriptBody
 	}
-	w := host.NewWorld()
+	w := host.NewWorldWithConfig(cdcruntime.Config{})
 	res := w.Script(src, useVM, args...)
 	if res.Class == "ok" {
 		out := toGo(res.Value).([]any)
@@ -938,7 +941,7 @@ func runFailing(r *gRow, share uint32) {
 			if vm {
 				engine = "vm"
 			}
-			w := host.NewWorld()
+			w := host.NewWorldWithConfig(cdcruntime.Config{})
 			res := w.Script(c.src, vm)
 			if strings.Contains(res.Class, "CheckerError") || strings.Contains(res.Class, "ParserError") || strings.Contains(res.Class, "ParsingCheckingError") {
 				util.Die("generated script rejected (%s): %v\n%s", res.Class, res.Err, c.src)
@@ -972,11 +975,11 @@ const rankScript = `access(all) fun main(ss: [String]): [UInt8] {
     return out
 }`
 
-func rankMask(ra, rb int) int {
+func rankMask(c int) int {
 	switch {
-	case ra == rb:
+	case c == 0:
 		return 1 + 8 + 32
-	case ra < rb:
+	case c < 0:
 		return 2 + 4 + 8
 	}
 	return 2 + 16 + 32
@@ -987,9 +990,22 @@ func checkRanks(rows []*gRow) int {
 		return 0
 	}
 	sort.Slice(rows, func(i, j int) bool { return rows[i].S < rows[j].S })
+	for _, r := range rows {
+		r.cmp = map[string]int{}
+		for _, e := range r.Cm {
+			r.cmp[e[0].(string)] = int(e[1].(float64))
+		}
+	}
+	want := func(a, b *gRow) int {
+		c, ok := a.cmp[b.V]
+		if !ok {
+			util.Die("comparison table of %q has no entry for value %q", a.S, b.V)
+		}
+		return rankMask(c)
+	}
 	report := func(engine, path string, a, b *gRow, want, got int) {
-		fail(gFail{Op: "order-by-rank", Path: path, Engine: engine, Al: a.Al, S: a.S, V: a.V, N: b.S,
-			Want: fmt.Sprintf("mask %06b (== != < <= > >= from low bit; ranks %d, %d)", want, a.Rk, b.Rk), Got: fmt.Sprintf("mask %06b", got),
+		fail(gFail{Op: "compare-all-pairs", Path: path, Engine: engine, Al: a.Al, S: a.S, V: a.V, N: b.S,
+			Want: fmt.Sprintf("mask %06b (== != < <= > >= from the low bit)", want), Got: fmt.Sprintf("mask %06b", got),
 			Dev: "wrong-value", Shape: shapeOf(a, nil)})
 	}
 	// direct
@@ -1020,8 +1036,8 @@ func checkRanks(rows []*gRow) int {
 			if a.GreaterEqual(inter, b) {
 				m |= 32
 			}
-			if want := rankMask(rows[i].Rk, rows[k].Rk); want != m {
-				report("go", "go", rows[i], rows[k], want, m)
+			if wm := want(rows[i], rows[k]); wm != m {
+				report("go", "go", rows[i], rows[k], wm, m)
 			}
 		}
 	}
@@ -1031,7 +1047,7 @@ func checkRanks(rows []*gRow) int {
 		if vm {
 			engine = "vm"
 		}
-		w := host.NewWorld()
+		w := host.NewWorldWithConfig(cdcruntime.Config{})
 		res := w.Script(rankScript, vm, encodeArg(cdcStrings(ss)))
 		if res.Class != "ok" {
 			util.Die("rank script failed: %s %v", res.Class, res.Err)
@@ -1042,8 +1058,8 @@ func checkRanks(rows []*gRow) int {
 		}
 		for i := range rows {
 			for k := range rows {
-				if want := rankMask(rows[i].Rk, rows[k].Rk); want != out[i*len(rows)+k] {
-					report(engine, "args", rows[i], rows[k], want, out[i*len(rows)+k])
+				if wm := want(rows[i], rows[k]); wm != out[i*len(rows)+k] {
+					report(engine, "args", rows[i], rows[k], wm, out[i*len(rows)+k])
 				}
 			}
 		}
@@ -1164,6 +1180,11 @@ func graphemesMain(args []string) {
 		gOut.Write(map[string]any{"summary": true, "rows": len(rows), "invalid": true})
 		return
 	}
+	t0 := time.Now()
+	lap := func(what string) {
+		fmt.Fprintf(os.Stderr, "[graphemes] %s: %.1fs\n", what, time.Since(t0).Seconds())
+		t0 = time.Now()
+	}
 	// 1. direct calls, every row
 	var wg sync.WaitGroup
 	ch := make(chan *gRow, 256)
@@ -1182,6 +1203,7 @@ func graphemesMain(args []string) {
 	}
 	close(ch)
 	wg.Wait()
+	lap("direct calls")
 	// 2. scripts: arguments path on every row and both engines; literal paths on a hash-selected share
 	type job struct {
 		rows []*gRow
@@ -1218,16 +1240,19 @@ func graphemesMain(args []string) {
 		}
 	}
 	util.Parallel(len(jobs), workers, func(i int) { runBatch(jobs[i].rows, jobs[i].path, jobs[i].vm) })
+	lap("batched scripts")
 	// 3. predicted failures, one script each
 	util.Parallel(len(rows), workers, func(i int) { runFailing(rows[i], failShare) })
+	lap("failing scripts")
 	// 4. ordering of all ranked pairs
 	var ranked []*gRow
 	for _, r := range rows {
-		if r.Rk >= 0 {
+		if len(r.Cm) > 0 {
 			ranked = append(ranked, r)
 		}
 	}
 	pairs := checkRanks(ranked)
+	lap("all-pairs ordering")
 
 	// coverage figures
 	values := map[string]bool{}
@@ -1259,5 +1284,4 @@ func graphemesMain(args []string) {
 		"go_evals": atomic.LoadInt64(&nGo), "cadence_evals": atomic.LoadInt64(&nCad), "literal_rows": nLit,
 		"ranked_strings": len(ranked), "ranked_pairs": pairs, "failures": atomic.LoadInt64(&nFails),
 		"empty_needle_conventions": emptyConventions(rows)})
-	_ = os.Stdout
 }
